@@ -93,22 +93,32 @@ Record node := mkNode {
   bad : list bid;        (* errBlocks *)
   lib : N;               (* last irreversible block number reported by consensus *)
   jlog : list wunit;     (* ghost: journal, most recent first *)
-  evs : list event       (* ghost: emitted messages, most recent first *)
+  evs : list event;      (* ghost: emitted messages, most recent first *)
+  pmem : sroot           (* in-memory system parameters (contract/system: gas price, staking minimum,
+                            name price, BP count), volatile: "the parameters stored in the state of
+                            root [pmem]" *)
 }.
 
-Definition set_dur n d := mkNode d (best n) (sdb_root n) (orphans n) (bad n) (lib n) (jlog n) (evs n).
-Definition set_best n b := mkNode (dur n) b (sdb_root n) (orphans n) (bad n) (lib n) (jlog n) (evs n).
-Definition set_sdb n r := mkNode (dur n) (best n) r (orphans n) (bad n) (lib n) (jlog n) (evs n).
-Definition set_orphans n o := mkNode (dur n) (best n) (sdb_root n) o (bad n) (lib n) (jlog n) (evs n).
-Definition set_bad n l := mkNode (dur n) (best n) (sdb_root n) (orphans n) l (lib n) (jlog n) (evs n).
-Definition set_lib n l := mkNode (dur n) (best n) (sdb_root n) (orphans n) (bad n) l (jlog n) (evs n).
+Definition set_dur n d := mkNode d (best n) (sdb_root n) (orphans n) (bad n) (lib n) (jlog n) (evs n) (pmem n).
+Definition set_best n b := mkNode (dur n) b (sdb_root n) (orphans n) (bad n) (lib n) (jlog n) (evs n) (pmem n).
+Definition set_sdb n r := mkNode (dur n) (best n) r (orphans n) (bad n) (lib n) (jlog n) (evs n) (pmem n).
+Definition set_orphans n o := mkNode (dur n) (best n) (sdb_root n) o (bad n) (lib n) (jlog n) (evs n) (pmem n).
+Definition set_bad n l := mkNode (dur n) (best n) (sdb_root n) (orphans n) l (lib n) (jlog n) (evs n) (pmem n).
+Definition set_lib n l := mkNode (dur n) (best n) (sdb_root n) (orphans n) (bad n) l (jlog n) (evs n) (pmem n).
+Definition set_pmem n r := mkNode (dur n) (best n) (sdb_root n) (orphans n) (bad n) (lib n) (jlog n) (evs n) r.
+(* the state root moves and the in-memory parameters follow it: a connected block commits the
+   parameters it staged (consensus Update -> system.CommitParams(true)), a rollback reloads them
+   from the state (ChainService.reloadSystemParams) *)
+Definition set_state n r := set_pmem (set_sdb n r) r.
+(* ChainService.reloadSystemParams / InitSystemParams at start: read from the current state root *)
+Definition reload n := set_pmem n (sdb_root n).
 Definition emit (n : node) (u : wunit) : node :=
-  mkNode (apply_unit (dur n) u) (best n) (sdb_root n) (orphans n) (bad n) (lib n) (u :: jlog n) (evs n).
+  mkNode (apply_unit (dur n) u) (best n) (sdb_root n) (orphans n) (bad n) (lib n) (u :: jlog n) (evs n) (pmem n).
 (* a unit with no operation is not a write (the journaling store drops it as well) *)
 Definition emit_ne (n : node) (u : wunit) : node :=
   match u_ops u with [] => n | _ => emit n u end.
 Definition tell (n : node) (e : event) : node :=
-  mkNode (dur n) (best n) (sdb_root n) (orphans n) (bad n) (lib n) (jlog n) (e :: evs n).
+  mkNode (dur n) (best n) (sdb_root n) (orphans n) (bad n) (lib n) (jlog n) (e :: evs n) (pmem n).
 
 (** ** Reads (chaindb.go) *)
 Definition get_block (d : store) (id : bid) : option block :=
@@ -227,10 +237,14 @@ Variable orphan_cap : nat.   (* OrphanPool.maxCnt *)
 Definition exec_ok (r : sroot) (b : block) : bool :=
   match apply r b with Some r' => r' =? root b | None => false end.
 
+(** The block is executed with the in-memory system parameters.  When they are the ones of the
+    state the block is executed on ([pmem n = sdb_root n], clause [i_params] of the invariant) the
+    outcome is [apply]; with stale parameters the node computes something else than the producer
+    of the block did: the model takes the worst case, the block is rejected (state root mismatch). *)
 Definition execute_block (n : node) (b : block) : option node :=
-  if exec_ok (sdb_root n) b then
+  if (pmem n =? sdb_root n) && exec_ok (sdb_root n) b then
     let n1 := emit n (state_unit (root b)) in          (* BlockState.Commit *)
-    let n2 := set_sdb n1 (root b) in                   (* sdb.UpdateRoot *)
+    let n2 := set_state n1 (root b) in                 (* sdb.UpdateRoot; cs.Update: CommitParams(true) *)
     let n3 := emit_ne n2 (receipts_unit b) in          (* writeReceiptsAndOperations *)
     Some (tell n3 (EvMemPoolDel (hash_field b)))       (* notifyEvents *)
   else None.
@@ -365,11 +379,13 @@ Definition reorg (n : node) (top : block) : node * bool :=
         let m := mkMarker (hash_field brstart) (no brstart)
                           (hash_field (best n)) (no (best n))
                           (hash_field top) (no top) in
-        let n1 := set_sdb n (root brstart) in               (* rollback *)
+        let n1 := set_state n (root brstart) in             (* rollback; reloadSystemParams (F41) *)
         match rollforward n1 (rev news) with
         | (n2, false) =>
             (* F7: the unrepaired code leaves the state root inside the new branch *)
-            ((if f7_fixed then set_sdb n2 (root (best n)) else n2), true)
+            ((if f7_fixed then set_state n2 (root (best n)) else n2), true)
+        (* the final reloadSystemParams is the identity here: every block rolled forward has
+           committed its own parameters ([reorg_pmem] in Params.v); it matters in [recover_tail] *)
         | (n2, true) => (swap_chain n2 m top news olds false, false)
         end
   end.
@@ -456,6 +472,68 @@ Definition add_block_gen (own : bool) (pre : precheck) (n : node) (b : block) : 
            end
        end.
 
+(** *** consensus configuration: a consensus with a write-ahead log (raftv2: HasWAL() = true)
+    The consensus writes the body of a block it agreed on into the chain DB (ChainDB.WriteRaftEntry,
+    one DB transaction; the raft log entries of that transaction are not modelled) BEFORE it hands
+    the block to the chain service.  chainProcessor.connectToChain then skips the body for the blocks
+    that came through the block factory together with their block state
+    ([cp.isByBP && cp.HasWAL()]); every other block (network, sync, a raft follower's commit with
+    bstate = nil) is connected WITH its body, WAL or not. *)
+Definition connect_unit_nobody (b : block) : wunit :=
+  mkUnit SChain UTx ((KLatest, Some (VNo (no b)))
+                     :: (KHeight (no b), Some (VHash (hash_field b)))
+                     :: tx_ops (hash_field b) 0 (txs b)).
+Definition connect_main_cfg (skip_body : bool) (n : node) (b : block) : option node :=
+  match execute_block n b with
+  | Some n1 => Some (set_best (emit n1 (if skip_body then connect_unit_nobody b else connect_unit b)) b)
+  | None => None
+  end.
+Definition wal_write (n : node) (b : block) : node := store_side n b.
+(** raftv2 BlockFactory.IsConnectedBlock: the block of that height on the main chain has this hash *)
+Definition is_connected_wal (n : node) (b : block) : bool :=
+  match get_block_by_no (dur n) (no b) with
+  | Some x => hash_field x =? hash_field b
+  | None => false
+  end.
+Definition add_own_block_internal_cfg (has_wal : bool) (n : node) (b : block) : node * result * bool :=
+  match is_main_chain n b with
+  | None => (n, RErr, true)
+  | Some main =>
+      let r := if main then connect_main_cfg has_wal n b else Some (store_side n b) in
+      match r with
+      | None => (n, RErr, true)
+      | Some n1 =>
+          if negb main && (no (best n1) <? no b) then
+            match reorg n1 b with
+            | (n2, true) => (n2, RErr, true)
+            | (n2, false) => (n2, ROk, true)
+            end
+          else (n1, ROk, true)
+      end
+  end.
+(** one delivery under a consensus configuration: [has_wal] is the configuration, [walpre] says
+    that the consensus pre-wrote the body of this block ([own -> walpre] is the contract of the WAL
+    consensus), [own]/[pre] as in [add_block_gen] *)
+Definition add_block_cfg (has_wal walpre own : bool) (pre : precheck) (n0 : node) (b : block) : node * result :=
+  let n := if has_wal && walpre then wal_write n0 b else n0 in
+  if mem (hash_field b) (bad n) then (n, RCached)
+  else if (if has_wal then is_connected_wal n b
+           else match get_block (dur n) (hash_field b) with Some _ => true | None => false end)
+  then (n, RKnown)
+  else match pre with
+       | PreTimestamp => (n, RErr)
+       | _ =>
+           if own && negb (prev b =? hash_field (best n)) then (n, RErr)
+           else match pre with
+                | PreSign => (set_bad n (bad_add (hash_field b) (bad n)), RErr)
+                | _ =>
+                    match (if own then add_own_block_internal_cfg has_wal n b else add_block_internal n b) with
+                    | (n1, RErr, true) => (set_bad n1 (bad_add (hash_field b) (bad n1)), RErr)
+                    | (n1, r, _) => (n1, r)
+                    end
+                end
+       end.
+
 (** An arrival: the environment first reports the current LIB. *)
 Definition arrive (n : node) (lb : N * block) : node :=
   fst (add_block (set_lib n (fst lb)) (snd lb)).
@@ -466,7 +544,7 @@ Definition history (n : node) (l : list (N * block)) : node := fold_left arrive 
 (** genesis: addGenesisBlock (one transaction) after SetGenesis committed the state *)
 Definition init_node (g : block) : node :=
   let d := replay empty_store [state_unit (root g); connect_unit g] in
-  mkNode d g (root g) [] [] 0 [] [].
+  mkNode d g (root g) [] [] 0 [] [] (root g).
 
 (** gatherReco: blocks from [top] down to (excluding) height [startno], newest first *)
 Fixpoint gather_down (fuel : nat) (d : store) (startno : N) (cur : block) : option (list block) :=
@@ -526,7 +604,7 @@ Fixpoint rollforward_reco (n : node) (news_oldest_first : list block) : node * b
     loadChainData and RecoverChainMapping. *)
 Definition recover_tail (n1 : node) (m : marker) : start_result :=
   (* sdb.Init at the (restored) best block; Recover *)
-  let n2 := set_sdb n1 (root (best n1)) in
+  let n2 := set_state n1 (root (best n1)) in             (* sdb.Init; InitSystemParams from that state *)
   if negb (hash_field (best n2) =? m_best m) then StartErr n2   (* ErrRecoInvalidBest *)
   else
   match get_block (dur n2) (m_top m), get_block (dur n2) (m_start m), get_block (dur n2) (m_best m) with
@@ -536,11 +614,14 @@ Definition recover_tail (n1 : node) (m : marker) : start_result :=
       match gather_down (S (N.to_nat (no ob))) (dur n2) (no st) ob,
             gather_down (S (N.to_nat (no top))) (dur n2) (no st) top with
       | Some olds, Some news =>
-          let n3 := set_sdb n2 (root st) in
+          let n3 := set_state n2 (root st) in               (* rollback; reloadSystemParams (F41) *)
+          (* executeBlockReco only moves the state root: no transaction is executed, nothing is
+             staged, the in-memory parameters stay those of the branch root ... *)
           match rollforward_reco n3 (rev news) with
-          | (n4, false) => StartErr (if f7_fixed then set_sdb n4 (root ob) else n4)
+          | (n4, false) => StartErr (if f7_fixed then set_state n4 (root ob) else n4)
           | (n4, true) =>
-              StartOk (swap_chain n4 m top news olds (hash_field (best n4) =? hash_field top))
+              (* ... until the reloadSystemParams at the end of ChainService.reorg *)
+              StartOk (reload (swap_chain n4 m top news olds (hash_field (best n4) =? hash_field top)))
           end
       | _, _ => StartErr n2
       end
@@ -572,7 +653,7 @@ Definition restart (d : store) : option start_result :=
     match get_block_by_no d latest with
     | None => None                                             (* ErrorLoadBestBlock *)
     | Some b0 =>
-      let n0 := mkNode d b0 (root b0) [] [] 0 [] [] in
+      let n0 := mkNode d b0 (root b0) [] [] 0 [] [] (root b0) in
       match get_marker d with
       | None => Some (StartOk n0)                              (* recoverNormal: root = best root by Init *)
       | Some m =>
